@@ -2,7 +2,7 @@
 # tools/seed.py <mutant dir> [extra check ids…] : confirm a seeded defect (tools/run_mutant.sh), store it under
 # /verif/seeded/<name>/ with the verification record in meta.json.
 import json, os, shutil, subprocess, sys
-src=sys.argv[1].rstrip('/'); name=os.path.basename(src)
+src=sys.argv[1].rstrip('/'); name=os.environ.get('SEED_NAME') or os.path.basename(src)
 meta=json.load(open(os.path.join(src,'meta.json')))
 checks=[meta['property']]+[c for c in sys.argv[2:] if c!=meta['property']]
 out=subprocess.run(['/verif/tools/run_mutant.sh',src]+checks,capture_output=True,text=True).stdout
